@@ -24,9 +24,12 @@ def plumbing(chk):
     for _ in range(40 if chk.tier == "quick" else 600):
         ev, exp, cur = [], [], 0
         for _ in range(rng.randint(2, 8)):
-            if rng.random() < 0.5:
+            r = rng.random()
+            if r < 0.4:
                 cur = rng.choice(vals)
                 ev.append("Z%d" % cur)
+            elif r < 0.55:
+                ev.append("Y%d" % rng.randrange(2))      # TCP keep-alive on / off: independent of the timeouts
             else:
                 ev.append("A")
                 exp.append(cur)
@@ -64,8 +67,11 @@ def plumbing_real(chk):
     for _ in range(6 if chk.tier == "quick" else 60):
         ev, exp, cur = [], [], 0
         for _ in range(rng.randint(3, 8)):
-            if rng.random() < 0.5:
+            r = rng.random()
+            if r < 0.4:
                 cur = rng.choice(vals); ev.append("Z%d" % cur)
+            elif r < 0.55:
+                ev.append("Y%d" % rng.randrange(2))
             else:
                 ev.append("A"); exp.append(cur)
         rcases.append("timeo " + ",".join(ev)); rexps.append(exp)
